@@ -529,4 +529,37 @@ example : dropPoint exSchema exDoc 2 ⟨[.elem 1 [] [] [.elem 2 [] [] []]], 0, 0
 example : canSplit exSchema exDoc 3 0 = none := by rfl
 example : canJoin exSchema exDoc 9 = none := by rfl
 
+/-! ### not stated: `canJoin_join_applies`
+
+    The stretch statement
+      `canJoin S doc pos = some (some true) → joinStep pos 1 = .ok st → ∃ doc', S.apply st doc = .ok doc'`
+    is **false** for arbitrary schemas, for the model and for the code alike: `joinable` asks
+    `a.can_append(b)` (does `b`'s content continue `a`'s), the join itself asks `check_join`
+    (`b.type.compatible_content(a.type)`: do the two *start* states share an edge).  In the schema
+    `doc: A B*`, `A: x y*`, `B: y+` and the document `doc(A(x), B(y))`, `can_join(doc, 3)` and `join_point(doc, 3)`
+    approve and `Transform.join(3)` raises `TransformError("Cannot join B onto A")`.  A conditional version
+    needs `compatibleContent`, `TextStable` (the join merges adjacent text nodes, `can_append` does not) and the
+    success characterisation of `replace`; it was not attempted. -/
+
+private def cexNT (name : String) (leaf : Bool) (dfa : Array DfaState) : NodeType :=
+  { name := name, isText := false, isInline := false, isLeaf := leaf, isAtom := leaf, inlineContent := false,
+    isolating := false, defining := false, code := false, dfa := dfa, markSet := none, attrs := [] }
+
+private def cexSchema : Schema :=
+  { nodes := #[cexNT "doc" false #[⟨false, [(1, 1)]⟩, ⟨true, [(2, 1)]⟩],
+      cexNT "A" false #[⟨false, [(3, 1)]⟩, ⟨true, [(4, 1)]⟩],
+      cexNT "B" false #[⟨false, [(4, 1)]⟩, ⟨true, [(4, 1)]⟩],
+      cexNT "x" true #[⟨true, []⟩], cexNT "y" true #[⟨true, []⟩],
+      { cexNT "text" true #[⟨true, []⟩] with isText := true, isInline := true }],
+    marks := #[], top := 0, textTy := 5 }
+
+private def cexDoc : Node := .elem 0 [] [] [.elem 1 [] [] [.leaf 3 [] []], .elem 2 [] [] [.leaf 4 [] []]]
+
+example : C01.Valid cexSchema cexDoc := by rfl
+/-- the helper approves … -/
+example : canJoin cexSchema cexDoc 3 = some (some true) := by rfl
+example : joinPoint cexSchema cexDoc 3 (-1) = some (some 3) := by rfl
+/-- … and the join is refused by `check_join` -/
+example : cexSchema.compatibleContent 2 1 = false := by rfl
+
 end PM.C12
